@@ -353,6 +353,7 @@ func cmdCheck(args []string) int {
 	workers := fs.Int("workers", 0, "workers per harness")
 	noNative := fs.Bool("no-native", false, "skip native replay/conformance")
 	smtlog := fs.String("smtlog", "", "directory for solver transcripts")
+	maxpaths := fs.Int("maxpaths", 0, "stop after this many paths (debugging)")
 	if len(args) < 2 {
 		usage()
 	}
@@ -414,6 +415,9 @@ func cmdCheck(args []string) int {
 				cfg.MaxPaths = e.MaxPaths
 			}
 			cfg.NoSummConc = e.NoConc
+			if *maxpaths > 0 {
+				cfg.MaxPaths = *maxpaths
+			}
 			hr := interp.Explore(ld.sh, cfg, ld.entries[e.Name])
 			results = append(results, hr)
 			specs = append(specs, e)
